@@ -18,7 +18,8 @@
  *
  * Knobs: C45_ACT_SELF, C45_ACT_OTHER, C45_ACT_ADD  enable actions 1,2,3 in watcher callbacks
  *        C45_EVCB_ACTS   the timer event's callback may free/add watchers too
- *        C45_NP0, C45_NC0 initial watchers; C45_NLOOPS loop calls; C45_FLAGS_SYM
+ *        C45_NP0, C45_NC0 initial watchers; C45_NLOOPS loop calls; C45_FLAGS=f0,f1 their flags;
+ *        C45_POLL_READY a non-blocking poll reports the fd readable
  */
 #include "vp.h"
 #include "log_stub.h"
@@ -38,9 +39,7 @@
 #ifndef C45_NLOOPS
 #define C45_NLOOPS 2
 #endif
-#ifndef C45_NADD
-#define C45_NADD 1          /* at most this many watchers are registered from callbacks */
-#endif
+#define C45_NADD 2          /* spare slots: one prepare, one check watcher may be registered from callbacks */
 #define NREC (C45_NP0 + C45_NC0 + C45_NADD)
 
 struct wrec {
@@ -52,13 +51,22 @@ struct wrec {
 	int runs;         /* callback invocations in the current iteration */
 };
 static struct wrec rec[NREC];
-static int n_actions;
+/* loop flags per call and whether a non-blocking poll finds the fd readable are concrete
+ * per obligation (enumerated by props/C45.py): a solver-chosen 'is the event active'
+ * makes every later flag test in the event core symbolic (DESIGN 3.9) */
+#ifndef C45_FLAGS
+#define C45_FLAGS EVLOOP_ONCE, EVLOOP_ONCE
+#endif
+#ifndef C45_POLL_READY
+#define C45_POLL_READY 0
+#endif
+static const int c45_flags[] = { C45_FLAGS };
+static int n_actions, ready_reported;
 #ifndef C45_MAXACT
 #define C45_MAXACT 2
 #endif
 static int nrec, nadded; /* nrec: initial watchers only */
 static struct event_base *base;
-static struct evwatch c45_dummy;
 
 /* stage of the current loop iteration as observable from outside the library */
 enum { ST_PREPARE = 0, ST_CHECK = 1, ST_CALLBACKS = 2, ST_IDLE = 3 };
@@ -126,8 +134,10 @@ static void hook_dispatch(struct event_base *b, struct timeval *tv)
 #ifndef C45_TIMER
 	/* I/O mode: an unbounded wait ends because the fd became readable; a poll may or
 	 * may not find it readable (what a real back end does: evmap_io_active_) */
-	if (tv == NULL || vp_bool())
+	if (tv == NULL || (C45_POLL_READY && !ready_reported)) {
+		ready_reported = 1;   /* readable once per loop call: the callback "drains" it */
 		evmap_io_active_(b, C45_FD, EV_READ);
+	}
 #endif
 }
 
@@ -143,17 +153,20 @@ static void act_free(int i)
  * pointer and symex no longer folds anything in the base (measured: no result). */
 static void act_add(void)
 {
-	int t, k;
-	for (k = C45_NP0 + C45_NC0; k < NREC; k++) {
-		if (rec[k].used) continue;
-		t = vp_bool() ? EVWATCH_CHECK : EVWATCH_PREPARE;
-		if (t == EVWATCH_PREPARE) rec[k].w = evwatch_prepare_new(base, prepare_cb, &rec[k]);
-		else rec[k].w = evwatch_check_new(base, check_cb, &rec[k]);
-		__CPROVER_assume(rec[k].w != NULL);
-		rec[k].used = 1; rec[k].type = t; rec[k].alive = 1; rec[k].due = 0; rec[k].runs = 0;
-		nadded++;
-		return;
+	/* one spare slot per watcher type (so a slot's type is a constant) */
+	int k = C45_NP0 + C45_NC0 + (vp_bool() ? 1 : 0);
+	if (k == C45_NP0 + C45_NC0) {
+		if (rec[C45_NP0 + C45_NC0].used) return;
+		rec[C45_NP0 + C45_NC0].w = evwatch_prepare_new(base, prepare_cb, &rec[C45_NP0 + C45_NC0]);
+		__CPROVER_assume(rec[C45_NP0 + C45_NC0].w != NULL);
+		rec[C45_NP0 + C45_NC0].used = rec[C45_NP0 + C45_NC0].alive = 1;
+	} else {
+		if (rec[C45_NP0 + C45_NC0 + 1].used) return;
+		rec[C45_NP0 + C45_NC0 + 1].w = evwatch_check_new(base, check_cb, &rec[C45_NP0 + C45_NC0 + 1]);
+		__CPROVER_assume(rec[C45_NP0 + C45_NC0 + 1].w != NULL);
+		rec[C45_NP0 + C45_NC0 + 1].used = rec[C45_NP0 + C45_NC0 + 1].alive = 1;
 	}
+	nadded++;
 }
 static void act_free_other(int self)
 {
@@ -170,7 +183,7 @@ static void do_action(int self, int allow_self, int allow_other, int allow_add)
 	if (n_actions >= C45_MAXACT || !vp_bool()) return;
 	n_actions++;
 	a = (int)vp_range(1, 3);
-	if (a == 1 && allow_self && self >= 0) { int j; for (j = 0; j < NREC; j++) if (j == self) act_free(j); }
+	if (a == 1 && allow_self && self >= 0) act_free(self);   /* self is a constant at every call site */
 	else if (a == 2 && allow_other) act_free_other(self);
 	else if (a == 3 && allow_add) act_add();
 }
@@ -197,37 +210,49 @@ static void do_action(int self, int allow_self, int allow_other, int allow_add)
 #endif
 
 /* ---- callbacks ---------------------------------------------------------- */
+/* The callbacks never write through `arg`/`w`: on paths symex cannot prune (a watcher
+ * pointer loaded from a list cell that is NULL/invalid under the path guard) those are
+ * garbage pointers whose value set is "every object", and one write through them turns
+ * the whole event_base symbolic (measured: no result).  The slot is found by comparing
+ * `arg` with the concrete slot addresses. */
 static void prepare_cb(struct evwatch *w, const struct evwatch_prepare_cb_info *info, void *arg)
 {
-	struct wrec *r = arg;
-	int self = (int)(r - rec);
+	int j, found = 0;
+	struct timeval t; int has;
 	if (stage != ST_PREPARE) begin_iteration();
-	VP_ASSERT(r->alive, "C45: prepare watcher ran after it was freed");
-	VP_ASSERT(r->w == w && r->type == EVWATCH_PREPARE, "C45: prepare callback got the wrong watcher handle");
-	VP_ASSERT(evwatch_base(w) == base, "C45: evwatch_base");
-	VP_ASSERT(r->runs == 0, "C45: prepare watcher ran twice in one iteration");
-	r->runs++; n_prepare_runs++;
-	{
-		struct timeval t; int has = evwatch_prepare_get_timeout(info, &t);
-		if (prep_seen) {
-			VP_ASSERT(prep_tv_null == !has, "C45: prepare watchers of one iteration disagree on the timeout");
-			if (has) VP_ASSERT(prep_tv.tv_sec == t.tv_sec && prep_tv.tv_usec == t.tv_usec, "C45: prepare watchers of one iteration disagree on the timeout");
-		}
-		prep_seen = 1; prep_tv_null = !has; if (has) prep_tv = t;
+	for (j = 0; j < NREC; j++) if (arg == (void *)&rec[j]) {
+		found = 1;
+		VP_ASSERT(rec[j].alive, "C45: prepare watcher ran after it was freed");
+		VP_ASSERT(rec[j].w == w && rec[j].type == EVWATCH_PREPARE, "C45: prepare callback got the wrong watcher handle");
+		VP_ASSERT(rec[j].runs == 0, "C45: prepare watcher ran twice in one iteration");
+		rec[j].runs++;
 	}
-	do_action(self, W_SELF, W_OTHER, W_ADD);
+	VP_ASSERT(found, "C45: prepare callback got an argument that was never registered");
+	VP_ASSERT(evwatch_base(w) == base, "C45: evwatch_base");
+	n_prepare_runs++;
+	has = evwatch_prepare_get_timeout(info, &t);
+	if (prep_seen) {
+		VP_ASSERT(prep_tv_null == !has, "C45: prepare watchers of one iteration disagree on the timeout");
+		if (has) VP_ASSERT(prep_tv.tv_sec == t.tv_sec && prep_tv.tv_usec == t.tv_usec, "C45: prepare watchers of one iteration disagree on the timeout");
+	}
+	prep_seen = 1; prep_tv_null = !has; if (has) prep_tv = t;
+	for (j = 0; j < NREC; j++) if (arg == (void *)&rec[j]) do_action(j, W_SELF, W_OTHER, W_ADD);
 }
 static void check_cb(struct evwatch *w, const struct evwatch_check_cb_info *info, void *arg)
 {
-	struct wrec *r = arg;
-	int self = (int)(r - rec);
+	int j, found = 0;
 	(void)info;
 	VP_ASSERT(stage == ST_CHECK, "C45: check watcher ran outside the window between the wait and the callbacks");
-	VP_ASSERT(r->alive, "C45: check watcher ran after it was freed");
-	VP_ASSERT(r->w == w && r->type == EVWATCH_CHECK, "C45: check callback got the wrong watcher handle");
-	VP_ASSERT(r->runs == 0, "C45: check watcher ran twice in one iteration");
-	r->runs++; n_check_runs++;
-	do_action(self, W_SELF, W_OTHER, W_ADD);
+	for (j = 0; j < NREC; j++) if (arg == (void *)&rec[j]) {
+		found = 1;
+		VP_ASSERT(rec[j].alive, "C45: check watcher ran after it was freed");
+		VP_ASSERT(rec[j].w == w && rec[j].type == EVWATCH_CHECK, "C45: check callback got the wrong watcher handle");
+		VP_ASSERT(rec[j].runs == 0, "C45: check watcher ran twice in one iteration");
+		rec[j].runs++;
+	}
+	VP_ASSERT(found, "C45: check callback got an argument that was never registered");
+	n_check_runs++;
+	for (j = 0; j < NREC; j++) if (arg == (void *)&rec[j]) do_action(j, W_SELF, W_OTHER, W_ADD);
 }
 static void timer_cb(evutil_socket_t fd, short what, void *arg)
 {
@@ -252,8 +277,14 @@ void harness_watchers(void)
 	/* unused slots point at a well-formed dummy (never registered, never freed: every use
 	 * is guarded by .alive) instead of NULL, so that after a state merge a slot pointer is
 	 * ite(added, real, dummy) and symex does not dereference an invalid object */
-	c45_dummy.base = base; c45_dummy.type = EVWATCH_PREPARE; c45_dummy.next.tqe_prev = &c45_dummy.next.tqe_next;
-	for (i = C45_NP0 + C45_NC0; i < NREC; i++) rec[i].w = &c45_dummy;
+	for (i = 0; i < 2; i++) {
+		struct evwatch *d = malloc(sizeof(*d));
+		__CPROVER_assume(d != NULL);
+		d->base = base; d->type = (i == 0) ? EVWATCH_PREPARE : EVWATCH_CHECK;
+		d->next.tqe_next = NULL; d->next.tqe_prev = &d->next.tqe_next;
+		d->callback.prepare = NULL; d->arg = NULL;
+		rec[C45_NP0 + C45_NC0 + i].w = d; rec[C45_NP0 + C45_NC0 + i].type = d->type;
+	}
 	for (i = 0; i < C45_NP0; i++) {
 		rec[nrec].w = evwatch_prepare_new(base, prepare_cb, &rec[nrec]);
 		__CPROVER_assume(rec[nrec].w != NULL);
@@ -279,12 +310,8 @@ void harness_watchers(void)
 #endif
 	for (l = 0; l < C45_NLOOPS; l++) {
 		int d0 = vp_be_dispatch_calls;
-#ifdef C45_FLAGS_SYM
-		flags = vp_bool() ? EVLOOP_ONCE : EVLOOP_NONBLOCK;
-#else
-		flags = EVLOOP_ONCE;
-#endif
-		stage = ST_IDLE;
+		flags = c45_flags[l];
+		stage = ST_IDLE; ready_reported = 0;
 #ifdef C45_TIMER
 		r = event_add(&ev, &tv);
 		VP_ASSERT(r == 0, "C45: harness: event_add");
@@ -305,7 +332,7 @@ void harness_watchers(void)
 	if (n_freed_in_cb >= 2) VP_WITNESS("two watchers freed from inside callbacks");
 #endif
 #ifdef C45_ACT_ADD
-	if (nadded >= 1 && rec[C45_NP0 + C45_NC0].runs == 1) VP_WITNESS("a watcher registered from a callback ran");
+	if (nadded >= 1 && (rec[C45_NP0 + C45_NC0].runs == 1 || rec[C45_NP0 + C45_NC0 + 1].runs == 1)) VP_WITNESS("a watcher registered from a callback ran");
 #endif
 #ifdef C45_FREE_BASE
 	/* event_base_free releases the remaining watchers (documented) */
